@@ -39,6 +39,9 @@ type c07Scen struct {
 	DL bool `json:"dl,omitempty"`
 	// Comp: the requests are made by a Component (XEP-0114), whose receive loop routes in arrival order
 	Comp bool `json:"comp,omitempty"`
+	// Ack (stress, client): the session has stream management; after the responses the server asks for an
+	// acknowledgement: every response, delivered to a waiting request or not, is a received stanza (C09)
+	Ack bool `json:"ack,omitempty"`
 }
 
 type c07Proc struct {
@@ -116,7 +119,7 @@ func c07RunOne(w *tr.Writer, tid int, raw json.RawMessage, c *common) error {
 	if sc.Comp {
 		mkEnv = newCompEnv
 	}
-	env, err := mkEnv(w, tid, envOpts{GateKV: gk, Handler: func(s xmpp.Sender, p stanza.Packet) {
+	env, err := mkEnv(w, tid, envOpts{GateKV: gk, SM: sc.Ack && !sc.Comp, Handler: func(s xmpp.Sender, p stanza.Packet) {
 		if iq, ok := p.(*stanza.IQ); ok {
 			k := 0
 			fmt.Sscanf(iq.From, "k%d@resp", &k)
@@ -125,6 +128,17 @@ func c07RunOne(w *tr.Writer, tid int, raw json.RawMessage, c *common) error {
 	}})
 	if err != nil {
 		return err
+	}
+	ackH := make(chan int, 4)
+	env.onElem = func(e *srv.Elem) {
+		if e.Local == "a" && e.Space == srv.NSSM {
+			if h, err := strconv.Atoi(e.Attr["h"]); err == nil {
+				select {
+				case ackH <- h:
+				default:
+				}
+			}
+		}
 	}
 	env.startReader()
 	sendIQ := func(ctx context.Context, iq *stanza.IQ) (chan stanza.IQ, error) {
@@ -209,6 +223,15 @@ func c07RunOne(w *tr.Writer, tid int, raw json.RawMessage, c *common) error {
 		})
 		if !ok {
 			w.Emit(tr.Rec{"ev": "stuck", "k": 0, "n": env.run.get("route.begin") - env.run.get("route.end")})
+		}
+		if sc.Ack && !sc.Comp {
+			env.conn.Write("<r xmlns='" + srv.NSSM + "'/>")
+			select {
+			case h := <-ackH:
+				w.Emit(tr.Rec{"ev": "ackh", "h": h, "want": sc.Stress})
+			case <-time.After(2 * time.Second):
+				w.Emit(tr.Rec{"ev": "ackh", "h": -1, "want": sc.Stress})
+			}
 		}
 		cancel()
 		time.Sleep(5 * time.Millisecond)
@@ -429,7 +452,7 @@ func runC07(args []string) error {
 		scens = append(scens, tidScen{tid, ln})
 	}
 	for i := 0; i < *stress; i++ {
-		b, _ := json.Marshal(c07Scen{Stress: 1 + i%7, Shape: (i / 7) % 4, Comp: i%3 == 2})
+		b, _ := json.Marshal(c07Scen{Stress: 1 + i%7, Shape: (i / 7) % 4, Comp: i%3 == 2, Ack: i%3 == 1})
 		tid++
 		scens = append(scens, tidScen{1000000 + tid, b})
 	}
